@@ -415,7 +415,7 @@ func Run(r *core.Run) {
 	}
 	var decodeErr error
 	res := tlcrun.MustHold(r, tlcrun.Options{
-		Module: "ResolveMC", Config: cfg, Workers: 8, TimeoutSec: r.Pick(240, 1200), NoDeadlock: true,
+		Module: "ResolveMC", Config: cfg, Workers: 8, TimeoutSec: r.Pick(900, 2400), NoDeadlock: true,
 		Coverage: r.Thorough(), KeepOutput: r.Thorough(), XssMB: 64,
 		OnCase: func(raw []byte) {
 			var head struct {
